@@ -194,7 +194,70 @@ func main() {
 		o.Set("sst.verifyBeforeCache", "lsm/table.go:loadBlock", val, shape && guard, "true")
 	}
 
+	// ---------------------------------------------------------------- table.go:loadBlock trailer guard
+	{
+		fd := tf.Func("table.loadBlock")
+		_, okLen := tf.FindCmp(body(fd), "b.chkLen", "len(b.data)")
+		opRP, okRP := tf.FindCmp(body(fd), "b.chkLen", "readPos")
+		opLen, _ := tf.FindCmp(body(fd), "b.chkLen", "len(b.data)")
+		// the guard sits between reading the length field and `readPos -= b.chkLen`
+		shape := fd != nil && tf.HasStmt(fd.Body, "readPos := len(b.data) - 4") && tf.HasStmt(fd.Body, "readPos -= b.chkLen") &&
+			tf.HasStmt(fd.Body, "b.chkLen = int(kv.BytesToU32(b.data[readPos : readPos+4]))")
+		switch {
+		case okRP && opRP == "gt" && !okLen:
+			o.Set("sst.chkLenGuard", "lsm/table.go:loadBlock", "readPos", shape, "len")
+		case okLen && opLen == "gt" && !okRP:
+			o.Set("sst.chkLenGuard", "lsm/table.go:loadBlock", "len", shape, "len")
+		default:
+			o.Set("sst.chkLenGuard", "lsm/table.go:loadBlock", "", false, "len")
+		}
+	}
+
+	// ---------------------------------------------------------------- every cache miss verifies
+	{
+		// (a) loadBlock: the one `if err = b.verifyCheckSum(); err != nil { return nil, err }` is a
+		//     top-level statement of the function body (not nested in any condition or loop) and no
+		//     return of a non-nil block precedes it except the cache hit;
+		// (b) block.verifyCheckSum is exactly `return utils.VerifyChecksum(b.data, b.checksum)`.
+		fd := tf.Func("table.loadBlock")
+		top := 0
+		okRetBefore := true
+		if fd != nil {
+			seenVerify := false
+			for _, st := range fd.Body.List {
+				if s, ok := st.(*ast.IfStmt); ok && s.Init != nil && tf.Src(s.Init) == "err = b.verifyCheckSum()" &&
+					tf.Src(s.Cond) == "err != nil" && tf.Src(s.Body) == "{ return nil, err }" && s.Else == nil {
+					top++
+					seenVerify = true
+					continue
+				}
+				if !seenVerify {
+					// before the verification only the cache hit may return a block
+					ast.Inspect(st, func(x ast.Node) bool {
+						if r, ok := x.(*ast.ReturnStmt); ok && len(r.Results) == 2 && tf.Src(r.Results[0]) != "nil" && tf.Src(r.Results[0]) != "cached" {
+							okRetBefore = false
+						}
+						return true
+					})
+				}
+			}
+		}
+		vf := bf.Func("block.verifyCheckSum")
+		exact := vf != nil && len(vf.Body.List) == 1 && bf.Src(vf.Body.List[0]) == "return utils.VerifyChecksum(b.data, b.checksum)"
+		vc := 0
+		for _, c := range tf.Calls(body(fd)) {
+			if c == "b.verifyCheckSum" {
+				vc++
+			}
+		}
+		o.Set("sst.verifyEveryLoad", "lsm/table.go:loadBlock + lsm/builder.go:block.verifyCheckSum", "true", top == 1 && vc == 1 && okRetBefore && exact, "true")
+	}
+
 	f := o.Facts
+	cg := "false"
+	if f["sst.chkLenGuard"] == "readPos" {
+		cg = "true"
+	}
 	lean := fmt.Sprintf(`-- GENERATED by /verif/extract/cmd/sst from the current /repo working tree. Do not edit.
 import NoKVModel.Sst.Model
 
@@ -203,10 +266,11 @@ open NoKV NoKV.Sst
 
 def sstCfg : SstCfg :=
   { splitOp := .%s, seekFallsThrough := %s, tblSeekOp := .%s, blkFwdOp := .%s, blkRevOp := .%s,
-    searchVsOp := .%s, bloomSameProjection := %s, verifyBeforeCache := %s }
+    searchVsOp := .%s, bloomSameProjection := %s, verifyBeforeCache := %s, chkLenGuardReadPos := %s,
+    verifyEveryLoad := %s }
 
 end NoKV.Generated.Sst
 `, f["sst.splitOp"], f["sst.seekFallsThrough"], f["sst.tblSeekOp"], f["sst.blkFwdOp"], f["sst.blkRevOp"],
-		f["sst.searchVsOp"], f["sst.bloomSameProjection"], f["sst.verifyBeforeCache"])
+		f["sst.searchVsOp"], f["sst.bloomSameProjection"], f["sst.verifyBeforeCache"], cg, f["sst.verifyEveryLoad"])
 	o.Write(*jsonOut, *leanOut, lean)
 }
